@@ -93,7 +93,7 @@ def sys_replay(ctx):
     """TLC-simulated behaviours of Sys.tla replayed step by step on two real managers"""
     cases = []
     k = 0
-    n_per = 4 if ctx.quick() else 40
+    n_per = 25 if ctx.quick() else 120
     combos = [(d, l, f) for d in ("push", "pull") for l in ("none", "l2_4") for f in ("FALSE", "TRUE")]
     if ctx.quick():
         combos = combos[ctx.seed % 2::2]
